@@ -199,9 +199,65 @@ func (db *DB) saveSchema(o Object, s *Schema, override bool) (err error) {
 		if err = writeReader(path, bytes.NewReader(data), DefaultPermissions, false); err != nil {
 			return
 		}
+		// schema on disk is the one in memory again
+		if err = db.clearDirty(s, o); err != nil {
+			return
+		}
 	}
 
 	return
+}
+
+// dirtyPath is the path of the marker file which exists in the directory of
+// a collection as long as its object files and the schema committed on disk
+// may disagree (see markDirty)
+func (db *DB) dirtyPath(of Object) string {
+	return filepath.Join(db.oDir(of), DirtyFilename)
+}
+
+// markDirty creates the marker file before object files and committed schema
+// start to diverge: before an object file is written (it is ahead of the
+// schema until the next commit) and before an asynchronous write is queued
+// (the next commit of the schema is ahead of the file until the flush). The
+// marker is removed by the commit which makes both agree again. A crash in
+// between is thus reported as index corruption when the collection is loaded,
+// also when it hit the update of an object, which leaves the same set of files.
+func (db *DB) markDirty(s *Schema, of Object) (err error) {
+	var f *os.File
+
+	if s.dirty {
+		return
+	}
+
+	if err = os.MkdirAll(db.oDir(of), DefaultPermissions); err != nil {
+		return
+	}
+
+	if f, err = os.OpenFile(db.dirtyPath(of), os.O_CREATE|os.O_WRONLY, DefaultPermissions); err != nil {
+		return
+	}
+
+	if err = f.Close(); err != nil {
+		return
+	}
+
+	s.dirty = true
+	return
+}
+
+// clearDirty removes the marker file once the schema on disk and the
+// object files agree: nothing must be pending
+func (db *DB) clearDirty(s *Schema, of Object) (err error) {
+	if !s.dirty || db.asyncw.count(of) > 0 {
+		return
+	}
+
+	if err = os.Remove(db.dirtyPath(of)); err != nil && !os.IsNotExist(err) {
+		return
+	}
+
+	s.dirty = false
+	return nil
 }
 
 func (db *DB) loadSchema(of Object) (s *Schema, err error) {
@@ -361,6 +417,11 @@ func (db *DB) writeObject(o Object) (err error) {
 		return
 	}
 
+	// the object file is going to be ahead of the schema on disk
+	if err = db.markDirty(s, o); err != nil {
+		return
+	}
+
 	if err = writeReader(path, bytes.NewBuffer(data), DefaultPermissions, s.Compress); err != nil {
 		return
 	}
@@ -434,6 +495,11 @@ func (db *DB) insertOrUpdate(s *Schema, o Object, commit bool) (err error) {
 	}
 
 	if s.asyncWritesEnabled() {
+		// the schema may be committed before the object is flushed
+		if err = db.markDirty(s, o); err != nil {
+			db.rollback(s, o)
+			return
+		}
 		// we don't write object to disk but store
 		// it in a structure for later saving
 		db.asyncw.put(o)
@@ -1216,7 +1282,10 @@ func (db *DB) Repair(of Object) (err error) {
 	}
 	s.ObjectIndex = index
 
-	return nil
+	// the schema on disk must be the repaired one, this also removes
+	// the marker an unclean shutdown may have left
+	s.dirty = s.dirty || isFileAndExist(db.dirtyPath(of))
+	return db.saveSchema(of, s, true)
 }
 
 // Close closes gently the DB by flushing any pending async writes
